@@ -1,4 +1,5 @@
 """C04 -- processor-level property; see proccheck.py / procgen.py / coq/Processor.v / coq/ProcMonitor.v."""
+import appkeycheck
 import proccheck
 
 LEVEL = "proof"
@@ -6,3 +7,4 @@ LEVEL = "proof"
 
 def run(chk, replay=None):
     proccheck.run(chk, "PropC04", {'multi': 6, 'mixed': 2, 'lifecycle': 1}, 260, 4000, [102, 401], replay=replay)
+    appkeycheck.run_stage(chk)
